@@ -1,6 +1,6 @@
 #!/bin/bash
 # usage: try_patch.sh <patch.diff> <PROP> [<PROP>...]  -- run checks against a scratch copy of /repo/src with the patch applied
-P=$1; shift
+P=$(readlink -f $1); shift
 D=$(mktemp -d /tmp/tp.XXXX); cp -r /repo/src $D/src
 ( cd $D && patch -s -p1 < $P ) || { echo "patch failed"; rm -rf $D; exit 2; }
 for pr in "$@"; do
